@@ -9,6 +9,8 @@ Theorem sync_creates_none_while_pg_pending : forall w u F w' e wr,
   sync_job w u F = (w', e, wr) -> pg_admitted (v_pg w) = false -> w_pods w' = w_pods w.
 Proof.
   intros w u F w' e wr H Hpg. unfold sync_job, sync_job_gen in H.
+  destruct (c_vdel (v_ctl w)); [inversion H; reflexivity|].
+  destruct (c_queue (v_ctl w)); cbn [negb] in H; [|inversion H; reflexivity].
   destruct (phase_beq (st_phase (v_st w)) PhNone); cbn [andb] in H.
   - destruct (fails_status F 0); [inversion H; reflexivity|].
     rewrite pj7 in H. cbn [write v_pg] in H. rewrite Hpg in H. cbn [negb] in H.
@@ -27,6 +29,7 @@ Theorem request_creates_none_while_pg_pending : forall w r F w' e wr,
   pg_admitted (v_pg w) = false -> w_pods w' = w_pods w.
 Proof.
   intros w r F w' e wr H Hk Hpg. unfold step_req in H.
+  destruct (c_job (v_ctl w)); cbn [negb] in H; [|inversion H; reflexivity].
   destruct (exec _ _) as [k u]. cbn in Hk. subst k.
   eapply sync_creates_none_while_pg_pending; eauto.
 Qed.
@@ -199,11 +202,12 @@ Proof. cbn. split; [repeat constructor; cbn; intuition congruence|split; vm_comp
 From V Require Import C05.SyncLemmas.
 
 Lemma sync_job_pods : forall w u F w' e wr,
-  sync_job w u F = (w', e, wr) -> pg_admitted (v_pg w) = true -> st_phase (v_st w) <> PhNone ->
+  sync_job w u F = (w', e, wr) -> c_vdel (v_ctl w) = false -> c_queue (v_ctl w) = true ->
+  pg_admitted (v_pg w) = true -> st_phase (v_st w) <> PhNone ->
   w_pods w' = a_pods (sync_pods (v_spec w) (v_pods w) (w_pods w) F) /\
   (F = [] -> e = a_err (sync_pods (v_spec w) (v_pods w) (w_pods w) [])).
 Proof.
-  intros w u F w' e wr H Hpg Hph. unfold sync_job, sync_job_gen in H.
+  intros w u F w' e wr H Hdel Hq Hpg Hph. unfold sync_job, sync_job_gen in H. rewrite Hdel, Hq in H. cbn [negb] in H.
   destruct (phase_beq (st_phase (v_st w)) PhNone) eqn:Ei.
   { apply phase_beq_true in Ei. contradiction. }
   cbn [andb] in H. rewrite pj7, Hpg in H. cbn [negb] in H. rewrite pj6, pj5 in H.
@@ -219,7 +223,8 @@ Qed.
 
 (* exact pod set, on the world: PodGroup admitted, fresh pod view, every API call succeeds *)
 Theorem sync_job_exact_pods : forall w u w' e wr,
-  sync_job w u [] = (w', e, wr) -> pg_admitted (v_pg w) = true -> st_phase (v_st w) <> PhNone ->
+  sync_job w u [] = (w', e, wr) -> c_vdel (v_ctl w) = false -> c_queue (v_ctl w) = true ->
+  pg_admitted (v_pg w) = true -> st_phase (v_st w) <> PhNone ->
   v_pods w = w_pods w -> NoDup (pod_ids (w_pods w)) ->
   e = false /\
   forall t i,
@@ -229,8 +234,8 @@ Theorem sync_job_exact_pods : forall w u w' e wr,
     | None => if wanted (v_spec w) (w_pods w) t i then Some (newpod t i) else None
     end.
 Proof.
-  intros w u w' e wr H Hpg Hph Hfresh Hnd.
-  destruct (sync_job_pods _ _ _ _ _ _ H Hpg Hph) as [Hp He]. rewrite Hfresh in Hp, He.
+  intros w u w' e wr H Hdel Hq Hpg Hph Hfresh Hnd.
+  destruct (sync_job_pods _ _ _ _ _ _ H Hdel Hq Hpg Hph) as [Hp He]. rewrite Hfresh in Hp, He.
   destruct (sync_exact_pods true (v_spec w) (w_pods w) Hnd) as [Herr Hfind].
   split; [rewrite (He eq_refl); exact Herr|].
   intros t i. rewrite Hp. apply Hfind.
@@ -346,3 +351,104 @@ Example minres_example :
 Proof.
   cbv zeta. split; [repeat constructor; cbn; lia|]. split; [cbn; lia|]. vm_compute. reflexivity.
 Qed.
+
+(* ---------- createOrUpdatePodGroup: "returned OK" for every fault position ---------- *)
+Definition pg_mirrors (g : podgroup) (sp : spec) (xs : list task_extra) (jp : Z) : Prop :=
+  g_minmember g = s_min sp /\ g_prio g = jp /\ g_res g = calc_min_resources sp xs /\
+  forall t, In t (s_tasks sp) -> tm_get (t_name t) (g_taskmin g) = Some (min_task_member t).
+
+Theorem podgroup_mirrors_spec_ok : forall lister api sp xs jp fail api',
+  NoDup (map t_name (s_tasks sp)) -> lister = api ->      (* the lister shows what the API server holds *)
+  create_or_update_pg lister api sp xs jp fail = (api', false) ->
+  exists g, api' = Some g /\ pg_mirrors g sp xs jp.
+Proof.
+  intros lister api sp xs jp fail api' Hnd -> H. unfold create_or_update_pg in H.
+  destruct (podgroup_mirrors_spec sp xs jp Hnd) as [Hc Hu].
+  destruct api as [g|].
+  - destruct (pg_eq_dec (pg_update g sp xs jp) g) as [E|E].
+    + inversion H; subst. exists g. split; auto. rewrite <- E. apply Hu.
+    + destruct fail; [discriminate|]. inversion H; subst. eexists; split; [reflexivity|apply Hu].
+  - destruct fail; [discriminate|]. inversion H; subst. eexists; split; [reflexivity|apply Hc].
+Qed.
+
+(* a call that returns an error changed nothing on the API server; a refused write is always reported *)
+Theorem pg_error_no_change : forall lister api sp xs jp fail api',
+  create_or_update_pg lister api sp xs jp fail = (api', true) -> api' = api.
+Proof.
+  intros lister api sp xs jp fail api' H. unfold create_or_update_pg in H.
+  destruct lister as [g|].
+  - destruct (pg_eq_dec (pg_update g sp xs jp) g); [discriminate|].
+    destruct fail; [inversion H; reflexivity|]. destruct api; inversion H; reflexivity.
+  - destruct fail; [inversion H; reflexivity|]. destruct api; discriminate.
+Qed.
+Theorem pg_refused_write_reported : forall lister api sp xs jp api' err,
+  create_or_update_pg lister api sp xs jp true = (api', err) ->
+  err = true \/ (api' = api /\ exists g, lister = Some g /\ pg_update g sp xs jp = g).
+Proof.
+  intros lister api sp xs jp api' err H. unfold create_or_update_pg in H.
+  destruct lister as [g|].
+  - destruct (pg_eq_dec (pg_update g sp xs jp) g) as [E|E]; inversion H; subst; eauto.
+  - inversion H; auto.
+Qed.
+
+(* ---------- controller restart: the informers may deliver pods, job and PodGroup in any order ---------- *)
+Definition delivery_orders : list (list op) :=
+  [[OSyncJob; OSyncPods; OSyncPg]; [OSyncJob; OSyncPg; OSyncPods]; [OSyncPods; OSyncJob; OSyncPg];
+   [OSyncPods; OSyncPg; OSyncJob]; [OSyncPg; OSyncJob; OSyncPods]; [OSyncPg; OSyncPods; OSyncJob]].
+
+Definition synced (w : world) : world :=
+  mkWorld (w_spec w) (w_spec w) (w_st w) (w_st w) (w_pods w) (w_pods w) (w_pg w) (w_pg w)
+          (mkCtl true false (c_wdel (v_ctl w)) (c_wdel (v_ctl w)) (c_queue (v_ctl w))).
+
+(* in particular: pods delivered BEFORE the job (cache.AddPod creates a placeholder,
+   cache.Add then does SetJob on it) are still there afterwards *)
+Theorem restart_any_delivery_order : forall w order,
+  In order delivery_orders -> run w (ORestart :: order) = synced w.
+Proof.
+  intros w order H. destruct w as [ws vs wst vst wp vp wg vg [cj cd cw cv cq]].
+  cbn in H. repeat (destruct H as [<-|H]; [reflexivity|]). destruct H.
+Qed.
+
+Theorem pods_before_job_are_kept : forall w,
+  v_pods (run w [ORestart; OSyncPods; OSyncJob]) = w_pods w /\
+  c_job (v_ctl (run w [ORestart; OSyncPods; OSyncJob])) = true.
+Proof. intros w. destruct w as [ws vs wst vst wp vp wg vg [cj cd cw cv cq]]. split; reflexivity. Qed.
+
+(* crash / partial failure of a sync at ANY point, controller restart, deliveries in ANY
+   order, retry: the pod set converges to that of the undisturbed sync *)
+Theorem crash_restart_world : forall w u F w1 e1 wr1 order,
+  sync_job w u F = (w1, e1, wr1) ->
+  c_vdel (v_ctl w) = false -> c_queue (v_ctl w) = true ->
+  pg_admitted (v_pg w) = true -> st_phase (v_st w) <> PhNone ->
+  v_pods w = w_pods w -> v_spec w = w_spec w ->
+  NoDup (map t_name (s_tasks (v_spec w))) -> NoDup (pod_ids (w_pods w)) ->
+  In order delivery_orders ->
+  let w2 := run w1 (ORestart :: order) in
+  c_job (v_ctl w2) = true /\ v_pods w2 = w_pods w2 /\ v_spec w2 = v_spec w /\
+  forall t i, find_pod t i (pass true (v_spec w2) (v_pods w2)) = find_pod t i (pass true (v_spec w) (w_pods w)).
+Proof.
+  intros w u F w1 e1 wr1 order H Hdel Hq Hpg Hph Hfresh Hspec Hts Hnd Hin w2.
+  unfold w2. rewrite (restart_any_delivery_order w1 order Hin). unfold synced. cbn.
+  destruct (sync_job_pods _ _ _ _ _ _ H Hdel Hq Hpg Hph) as [Hp _]. rewrite Hfresh in Hp.
+  pose proof (sync_job_outcome _ _ _ _ _ _ H) as O. pose proof (oc_spec _ _ _ _ _ _ _ O) as Hws.
+  repeat split; auto; try congruence.
+  intros t i. rewrite Hws, <- Hspec, Hp. apply crash_restart_converges; auto.
+Qed.
+
+(* non-vacuity: an interrupted sync, restart with the pods delivered before the job *)
+Example crash_restart_world_example :
+  let w := init_world ex_spec (mkStatus PhRunning 0 0 2 c0 0 [] false false) ex_pods (Some PgRunning) in
+  exists w1, sync_job w URunningSync [FCreate 1 0; FDelete 1 2] = (w1, true, false) /\
+    let w2 := run w1 [ORestart; OSyncPods; OSyncJob; OSyncPg] in
+    c_job (v_ctl w2) = true /\ v_pods w2 = w_pods w1 /\
+    pass true (v_spec w2) (v_pods w2) = pass true ex_spec ex_pods.
+Proof. eexists. split; [vm_compute; reflexivity|]. vm_compute. repeat split. Qed.
+
+Example podgroup_ok_example :
+  let sp := mkSpec [mkTask 1 3 (Some 1) [] None; mkTask 2 2 None [] None] 4 None 3 [] in
+  let xs := [mkExtra 100 64 1; mkExtra 250 0 2] in
+  let g0 := pg_create (mkSpec [mkTask 1 2 (Some 1) [] None; mkTask 2 2 None [] None] 3 None 3 []) xs 0 in
+  create_or_update_pg (Some g0) (Some g0) sp xs 2 false = (Some (pg_update g0 sp xs 2), false) /\
+  create_or_update_pg (Some g0) (Some g0) sp xs 2 true = (Some g0, true) /\
+  pg_update g0 sp xs 2 <> g0.
+Proof. vm_compute. repeat split; discriminate. Qed.
